@@ -1043,10 +1043,17 @@ pub fn generate(seed: u64) -> C11Scenario {
                     }
                 }
                 3 => {
-                    if project.bundle.is_some() && project.sources.len() >= 2 {
+                    let other = if project.sources.len() >= 2 {
+                        (victim + 1 + rf.below(project.sources.len() - 1)) % project.sources.len()
+                    } else {
+                        victim
+                    };
+                    if project.bundle.is_some()
+                        && project.sources.len() >= 2
+                        && !project.sources[victim].use_alias
+                        && !project.sources[other].use_alias
+                    {
                         // a require cycle
-                        let other = (victim + 1 + rf.below(project.sources.len() - 1))
-                            % project.sources.len();
                         let (a, b) = (victim.min(other), victim.max(other));
                         let pa = project.sources[a].path.clone();
                         let pb = project.sources[b].path.clone();
